@@ -305,6 +305,11 @@ func cmdCheck(args []string) {
 			}
 		}
 		sort.Strings(names)
+		for name, ob := range byName {
+			if (ob.Kind == "inv-entry" || ob.Kind == "inv-preserved" || ob.Kind == "pre" || ob.Kind == "lockinv") && ob.Status != "discharged" {
+				fmt.Printf("SUPPORT-UNPROVED %s [%s]: later obligations of this function assume it\n", name, ob.Status)
+			}
+		}
 		newSet := map[string]bool{}
 		for _, n := range names {
 			newSet[n] = true
